@@ -40,7 +40,11 @@ def binary_spec(big=True, cap=200000):
 _alphabet = st.characters(blacklist_categories=("Cs",))
 _boundary_chars = st.sampled_from(
     [chr(c) for c in (0, 0x7f, 0x80, 0x7ff, 0x800, 0xd7ff, 0xe000, 0xfffd, 0xffff,
-                      0x10000, 0x10ffff, 0x1f600)])
+                      0x10000, 0x10ffff, 0x1f600,
+                      # code points that codecs and text tools like to treat specially
+                      0xfeff, 0xfffe, 0x2028, 0x2029, 0x85, 0xa0, 0x202e, 0x200b, 0xd, 0xa)])
+SPECIAL_CHARS = ["\ufeff", "\ufffe", "\u2028", "\u2029", "\x85", "\xa0", "\u202e", "\u200b", "\x00", "\r", "\n", "\x7f",
+                 "\ufffd", "\uffff", "\U0010ffff"]
 
 
 def text_spec(big=True, cap_chars=60000):
@@ -160,6 +164,17 @@ def copts_noise(keys=("poll", "ping_rate", "ping_timeout", "close_timeout", "aut
     documented option gets varied somewhere, also where it 'obviously' does not matter."""
     opt = st.fixed_dictionaries({}, optional={k: st.sampled_from(COPTS_VALUES[k]) for k in keys})
     return weighted([(2, st.just({})), (1, opt)])
+
+
+def noise_calls():
+    """Calls with unsendable arguments (oversize close reason / control payload, wrong types, unencodable JSON) that the
+    application makes at drawn events and whose TypeError/ValueError it catches: they must leave no trace."""
+    from .simnet import BAD_CALLS
+    when = st.one_of(st.tuples(st.just("event"), st.sampled_from(["ready", "poll", "text", "binary", "ping", "closing"]),
+                               st.integers(0, 1)).map(list),
+                     st.tuples(st.just("msg"), st.integers(0, 5)).map(list), st.tuples(st.just("index"), st.integers(0, 12)).map(list))
+    one = st.fixed_dictionaries({"when": when, "do": st.sampled_from(list(BAD_CALLS))})
+    return weighted([(3, st.just([])), (1, st.lists(one, min_size=1, max_size=3))])
 
 
 def companion(weight_none=5):
